@@ -88,7 +88,7 @@ def run(ctx):
     rnd = random.Random(ctx.seed)
     wd = tlc.make_workdir()
     try:
-        worlds = [(1, 0, False), (3, 1, False), (3, 1, True), (4, 1, True)] if ctx.quick else \
+        worlds = [(1, 0, False), (3, 1, False), (3, 1, True), (4, 1, True), (5, 2, False)] if ctx.quick else \
             [(1, 0, False), (2, 0, True), (3, 1, False), (3, 1, True), (4, 1, False), (4, 1, True), (5, 2, False), (5, 2, True)]
         for signed in (False, True):
             cases = []
